@@ -31,6 +31,11 @@ pub struct CaseResult {
     pub sample: Option<String>,
     /// additional numeric counters summed into the evidence
     pub counters: Vec<(&'static str, u64)>,
+    /// for checks whose unit of evaluation is finer than a case (e.g. crash
+    /// images of one history): number of units evaluated and the sub-ids of
+    /// the non-trivial ones
+    pub sub_evaluations: Option<u64>,
+    pub sub_nontrivial: Vec<u64>,
 }
 
 #[derive(Debug, Clone)]
@@ -104,6 +109,24 @@ pub fn drive<F>(
 where
     F: Fn(&[u8]) -> CaseResult + Sync,
 {
+    drive_opts(seed, total_cases, max_len, tolerated, 600, 6000, f)
+}
+
+/// Like [`drive`], with explicit shrinking budgets (library shrink iterations
+/// and ddmin evaluations). Shrinking additionally stops after 150 s of wall
+/// time; that only affects how small the reported case is, never the verdict.
+pub fn drive_opts<F>(
+    seed: u64,
+    total_cases: u64,
+    max_len: usize,
+    tolerated: &[String],
+    shrink_iters: u32,
+    ddmin_budget: i64,
+    f: F,
+) -> (Stats, Option<Failure>, BTreeMap<String, u64>)
+where
+    F: Fn(&[u8]) -> CaseResult + Sync,
+{
     let n = shards() as u64;
     let per = total_cases.div_ceil(n);
     let stop = AtomicBool::new(false);
@@ -132,7 +155,8 @@ where
                         rng_seed: RngSeed::Fixed(
                             seed.wrapping_mul(1_000_003).wrapping_add(shard),
                         ),
-                        max_shrink_iters: 600,
+                        max_shrink_iters: shrink_iters,
+                        max_shrink_time: 150_000,
                         verbose: 0,
                         ..Config::default()
                     });
@@ -147,10 +171,17 @@ where
                             let r = f(&bytes);
                             if !failed_here.get() {
                                 let mut st = stats_cell.borrow_mut();
-                                st.evaluations += 1;
+                                st.evaluations += r.sub_evaluations.unwrap_or(1);
                                 done_cases.fetch_add(1, Ordering::Relaxed);
+                                for sub in &r.sub_nontrivial {
+                                    st.nontrivial.insert(
+                                        hash_bytes(&bytes) ^ sub.wrapping_mul(0x9E37_79B9_7F4A_7C15),
+                                    );
+                                }
                                 if r.nontrivial {
-                                    st.nontrivial.insert(hash_bytes(&bytes));
+                                    if r.sub_evaluations.is_none() {
+                                        st.nontrivial.insert(hash_bytes(&bytes));
+                                    }
                                     if st.samples.len() < 2 {
                                         if let Some(s) = &r.sample {
                                             st.samples.push(s.clone());
@@ -188,7 +219,7 @@ where
                     drop(stats_cell);
                     if let Err(TestError::Fail(_, bytes)) = res {
                         let (message, signature) = last_msg.borrow().clone();
-                        let bytes = ddmin(bytes, &|b| {
+                        let bytes = ddmin(bytes, ddmin_budget, &|b| {
                             let r = f(b);
                             match (&r.violation, &r.signature) {
                                 (Some(_), Some(sig)) => {
@@ -226,8 +257,18 @@ where
 /// Byte-level delta debugging after the library's own shrinking: remove
 /// chunks of decreasing size, then lower single bytes. `fails` must be
 /// deterministic. Bounded work (at most ~6000 evaluations).
-pub fn ddmin(mut bytes: Vec<u8>, fails: &dyn Fn(&[u8]) -> bool) -> Vec<u8> {
-    let mut budget: i64 = 6000;
+pub fn ddmin(
+    mut bytes: Vec<u8>,
+    mut budget: i64,
+    fails: &dyn Fn(&[u8]) -> bool,
+) -> Vec<u8> {
+    let deadline = Instant::now() + std::time::Duration::from_secs(150);
+    let fails = |b: &[u8]| -> bool {
+        if Instant::now() > deadline {
+            return false;
+        }
+        fails(b)
+    };
     let mut progress = true;
     while progress && budget > 0 {
         progress = false;
